@@ -130,10 +130,10 @@ func vp_C11_resolve() {
 	}
 	// KF-C11-1: with algorithm v2.1 a conflicted event that is not also listed among the auth events makes
 	// calculateFullAuthChainAndConflictedSubgraph insert a nil PDU into a set, which panics
-	vpExpectPanic("KF-C11-1", vpIsV12(ver) && len(auth) == len(h.base)+len(extraAuth))
+	// (fixed: KF-C11-1 - a conflicted event absent from the auth events made v2.1 insert a nil PDU into a set)
 	// KF-C11-2: v2.1 starts from the empty state, so when the conflicted power events are ordered the create event has
 	// not been applied yet and getPowerLevelFromAuthEvents (privileged creators) panics
-	vpExpectPanic("KF-C11-2", vpIsV12(ver) && vpConfig("shape") != "topic" && len(auth) != len(h.base)+len(extraAuth))
+	// (fixed: KF-C11-2)
 	auth2 := append(rev(auth), auth...)
 	r1, err1 := ResolveConflictsNew(ver, [][]PDU{setA, setB}, auth, vpUserIDForSender, vpNotRejected)
 	vpMapOrderReset()
